@@ -8,7 +8,7 @@ func vsymTopicName(tag string, n int) string {
 	s := vsym_String(tag, n)
 	for i := 0; i < n; i++ {
 		c := s[i]
-		vsym_Assume(vsym_Or(c == 'a', vsym_Or(c == 'b', vsym_Or(c == '0', vsym_Or(c == '.', vsym_Or(c == '/', vsym_Or(c == ':', c == '-')))))))
+		vsym_Assume(vsym_Or(c == 'a', vsym_Or(c == 'A', vsym_Or(c == 'b', vsym_Or(c == '0', vsym_Or(c == '.', vsym_Or(c == '/', vsym_Or(c == ':', c == '-'))))))))
 	}
 	return s
 }
@@ -49,5 +49,5 @@ func VsymC22_StorageKeys() {
 	vsym_Assert(vsymNeq(la.cacheTopicKey(), lb.cacheTopicKey()), "C22/cache-topic-key-distinct")
 	vsym_Assert(vsymNeq(segmentObjectKey("default", a, pa, 0), segmentObjectKey("default", b, pb, 0)) && vsymNeq(segmentIndexKey("default", a, pa, 0), segmentIndexKey("default", b, pb, 0)), "C22/restore-object-key-distinct")
 	// a topic never aliases a partition directory of another topic
-	vsym_Assert(!strings.HasPrefix(la.segmentKey(0), "default/"+b+"/") , "C22/s3-topic-vs-partition-of-other")
+	vsym_Assert(!strings.HasPrefix(la.segmentKey(0), "default/"+b+"/"), "C22/s3-topic-vs-partition-of-other")
 }
